@@ -22,7 +22,7 @@ ASSUMPTIONS = [
     "the chirality tag is not compared here (the encoder legitimately flips it; C04 judges it by parity)",
 ]
 
-ATOM_PAL = ["C", "N", "O", "S", "F", "Cl", "[CH3]", "[NH4+]", "[O-]", "[13CH4]", "[Fe+2]", "[H]", "[C:7]"]
+ATOM_PAL = ["C", "N", "O", "S", "F", "Cl", "[CH3]", "[NH4+]", "[O-]", "[13CH4]", "[Fe+2]", "[H]", "[C:7]", "[0C]"]
 BOND_PAL = ["", "-", "=", "#"]
 RING_SYM = [("", ""), ("=", ""), ("", "="), ("=", "="), ("-", ""), ("", "-"), ("#", "#")]
 RELAXED = {"?": 12}
@@ -58,7 +58,7 @@ def plan(tier, seed):
     for n in range(3, nl + 1):
         for pi, par in enumerate(E2.parent_vectors(n)):
             tasks.append(("lenient-spellings", ("lenient", n, pi)))
-    scopes.append({"name": "organic-brackets", "elements": ORG, "spellings": ["X", "[X]", "[XH]", "[XH2]", "[X+]", "[X-]", "[13X]"],
+    scopes.append({"name": "organic-brackets", "elements": ORG, "spellings": ["X", "[X]", "[XH]", "[XH2]", "[X+]", "[X-]", "[13X]", "[0X]", "[0XH]", "[00X-]", "[XH0]", "[X+0]"],
                    "contexts": ["S", "CS", "SC", "C(S)C", "S=C", "C1SC1", "S.S"], "tables": [RELAXED, "default"],
                    "desc": "every organic-subset element in plain and bracket spellings (a bracket atom has no implicit H)"})
     tasks.append(("organic-brackets", ("orgbr",)))
@@ -160,7 +160,7 @@ def run(task):
                 last = (smi, check(smi, RELAXED, r, want_accept=True, tolerant=True))
     elif kind == "orgbr":
         for el in ORG:
-            for sp in ("%s", "[%s]", "[%sH]", "[%sH2]", "[%s+]", "[%s-]", "[13%s]"):
+            for sp in ("%s", "[%s]", "[%sH]", "[%sH2]", "[%s+]", "[%s-]", "[13%s]", "[0%s]", "[0%sH]", "[00%s-]", "[%sH0]", "[%s+0]"):
                 a = sp % el
                 r.states += 1
                 for ctx in ("%s", "C%s", "%sC", "C(%s)C", "%s=C", "C1%sC1", "%s.%s"):
